@@ -75,6 +75,14 @@ def loopTo (n : Nat) (m : Mat) (K : Nat) : Mat := (List.range K).foldl (iterI n)
 /-- `FloydWarshall::new(&g).distances().dist`. -/
 def distances (g : WGraph) : Mat := loopTo g.n (init g) g.n
 
+/-- One call of `distances()` on a `FloydWarshall` object whose matrix currently is `m`
+(steps 2–4; the matrix is a field of the object and is NOT re-initialised with `isize::MAX`). -/
+def call (g : WGraph) (m : Mat) : Mat :=
+  loopTo g.n (zeroDiag g.n (setArcs g.n m (arcsWeighted g))) g.n
+
+/-- The matrix after a SECOND call of `distances()` on the same object. -/
+def distances2 (g : WGraph) : Mat := call g (distances g)
+
 inductive Res where
   | panic
   | ok (m : Mat)
